@@ -203,7 +203,7 @@ func genUpCfg(r *gen.R) upCfg {
 	case 4:
 		u.Subprotocols = []string{"superchat", "chat"}
 	default:
-		u.Subprotocols = []string{"x", "v2.json"}
+		u.Subprotocols = [][]string{{"x", "v2.json"}, {"unoffered", "chat"}, {"zzz"}, {"unoffered", "also-not", "superchat"}}[r.Intn(4)]
 	}
 	if r.Chance(1, 6) {
 		u.CheckOrigin = 1 + r.Intn(2)
@@ -327,7 +327,7 @@ func genHsReq(r *gen.R, u upCfg) *hsReq {
 	}
 	q.set("Origin", ol, oc)
 	// offers
-	switch r.Intn(6) {
+	switch r.Intn(7) {
 	case 0:
 		q.set("Sec-Websocket-Protocol", []string{"chat"}, cValid)
 	case 1:
@@ -336,8 +336,10 @@ func genHsReq(r *gen.R, u upCfg) *hsReq {
 		q.set("Sec-Websocket-Protocol", []string{" superchat ,chat,x "}, cValid)
 	case 3:
 		q.set("Sec-Websocket-Protocol", []string{"v2.json", "chat"}, cValid)
+	case 4:
+		q.set("Sec-Websocket-Protocol", []string{"a, b, chat, d, superchat"}, cValid)
 	}
-	switch r.Intn(9) {
+	switch r.Intn(10) {
 	case 0:
 		q.set("Sec-Websocket-Extensions", []string{"permessage-deflate"}, cValid)
 	case 1:
@@ -352,6 +354,15 @@ func genHsReq(r *gen.R, u upCfg) *hsReq {
 		q.set("Sec-Websocket-Extensions", []string{[]string{"PERMESSAGE-DEFLATE", ";;", "permessage-deflate;", "=permessage-deflate", "permessage-deflate \"x", "a=\"\\", "permessage-deflatex"}[r.Intn(7)]}, cValid)
 	case 6:
 		q.set("Sec-Websocket-Extensions", []string{"foo; a=\"b\\\"c\", permessage-deflate"}, cValid)
+	case 7:
+		// the token only inside a quoted string (with and without escapes): not an offer
+		q.set("Sec-Websocket-Extensions", []string{[]string{
+			"foo; bar=\"a\\\", permessage-deflate, x=\"",
+			"foo; bar=\"permessage-deflate\"",
+			"foo; bar=\"x, permessage-deflate\"",
+			"foo; bar=\"\\\\\", baz; q=\", permessage-deflate\"",
+			"foo; bar=\"a\\\\\\\", permessage-deflate ,\"",
+		}[r.Intn(5)]}, cValid)
 	}
 	return q
 }
@@ -400,34 +411,33 @@ func (q *hsReq) offeredProtocols() map[string]bool {
 	return m
 }
 
-// deflateOffer: cValid = clearly offered, cInvalid = clearly not offered.
+// deflateOffer: cValid = clearly offered (a well-formed line has an element
+// named permessage-deflate), cInvalid = clearly not offered (every line is
+// well-formed per the independent parser and none has such an element, in any
+// case; a mention inside a quoted string is not an offer), else cUnclear.
 func (q *hsReq) deflateOffer() int {
 	lines := q.H["Sec-Websocket-Extensions"]
-	anyMention := false
-	clear := false
+	allWell := true
+	offered := false
+	mentionedOtherCase := false
 	for _, l := range lines {
-		if strings.Contains(strings.ToLower(l), "permessage-deflate") {
-			anyMention = true
+		exts, ok := httpx.ParseExtensionList(l)
+		if !ok {
+			allWell = false
+			continue
 		}
-		for _, e := range strings.Split(l, ",") {
-			parts := strings.Split(e, ";")
-			if strings.Trim(parts[0], " \t") == "permessage-deflate" && !strings.ContainsAny(l, "\"\\=") {
-				ok := true
-				for _, p := range parts[1:] {
-					if !httpx.IsToken(strings.Trim(p, " \t")) {
-						ok = false
-					}
-				}
-				if ok {
-					clear = true
-				}
+		for _, e := range exts {
+			if e.Name == "permessage-deflate" {
+				offered = true
+			} else if strings.EqualFold(e.Name, "permessage-deflate") {
+				mentionedOtherCase = true
 			}
 		}
 	}
 	switch {
-	case clear:
+	case offered:
 		return cValid
-	case !anyMention:
+	case allWell && !mentionedOtherCase:
 		return cInvalid
 	}
 	return cUnclear
